@@ -91,6 +91,16 @@ def gen_case(rng, estimation=False):
                 if isinstance(kd, dict):
                     rot(kd)
         rot(spec["tree"])
+    if rng.random() < 0.3:
+        # state kept in perm (as ClosePositionsAfterDates / RollPositionsAfterDates do): a gate that opens on every k-th call
+        def pg(tr):
+            st = tr.get("stack")
+            if st and rng.random() < 0.8:
+                st.insert(1 if st[0][0].startswith("Run") else 0, ["PermGate", rng.randint(2, 3)])
+            for kd in tr.get("kids") or []:
+                if isinstance(kd, dict):
+                    pg(kd)
+        pg(spec["tree"])
     k = rng.randint(2, 3)
     variants = []
     for i in range(k):
